@@ -1,5 +1,8 @@
 import JediModel.Model.WalkSrc
 import JediModel.Lemmas.Walk
+import JediModel.Lemmas.WalkPath
+import JediModel.Lemmas.WalkTree
+import JediModel.Lemmas.WalkNodup
 import JediModel.Lemmas.Search
 /-! # C19 — Project search finds every definition and honours ignore rules
 
@@ -49,27 +52,33 @@ theorem folder_filter_conjuncts :
     "base_name_not_ignored" ∈ srcCfg.conjuncts := by
   decide
 
+/-- the file filter found in the source has the two conjuncts the model knows -/
+theorem file_filter_conjuncts :
+    "not_in_except_paths" ∈ srcCfg.fileConjuncts ∧ "not_in_relative_expanded" ∈ srcCfg.fileConjuncts := by
+  decide
+
 /-! ## nothing is yielded from a pruned place -/
 
-/-- the state after the `for file_io in file_ios` loop of the top directory: every `.gitignore`
-entry of the project root has been read -/
+/-- the state after the first `for file_io in file_ios` loop of the top directory: every
+`.gitignore` entry of the project root has been read -/
 abbrev rootState (cfg : Cfg) (root : Str) (st : St) (files : List FileEnt) : St :=
-  (processFiles cfg root [] st files).2
+  readGitignores cfg root st files
 
 /-- soundness of the walk: every event below the top directory is reached through directories
 that all pass the folder filter of the state `rootState` (initial `except_paths` plus the root's
-`.gitignore`), and a file event is a `.py/.pyi` file of such a directory that is not an
-excepted `Path`. -/
+`.gitignore`), and a file event is a `.py/.pyi` file of such a directory that passes the file
+filter. -/
 theorem walk_sound (cfg : Cfg) (root : Str) (st : St) (files : List FileEnt) (children : Forest) :
     ∀ ev ∈ (walkRoot cfg root st files children).1,
-      (ev.anc = [] ∧ ∃ f ∈ files, isPy cfg f.name = true ∧ osJoin root f.name ∉ st.exceptPath ∧
-          ev = ⟨true, osJoin root f.name, []⟩) ∨
+      (ev.anc = [] ∧ ∃ f ∈ files, isPy cfg f.name = true ∧
+          fileOk cfg root (rootState cfg root st files) f.name = true ∧
+          ev = ⟨true, osJoin root f.name, f.name, []⟩) ∨
       Sound cfg (rootState cfg root st files) root [] children ev := by
   intro ev h
   simp only [walkRoot, List.mem_append] at h
   rcases h with (h | h) | h
-  · obtain ⟨f, hf, hpy, hex, rfl⟩ := (mem_processFiles _ _ _ _ _ _).mp h
-    exact .inl ⟨rfl, f, hf, hpy, hex, rfl⟩
+  · obtain ⟨f, hf, hpy, hok, rfl⟩ := (mem_fileEvents _ _ _ _ _ _).mp h
+    exact .inl ⟨rfl, f, hf, hpy, hok, rfl⟩
   · obtain ⟨hff, fs, c, hr⟩ := reach_of_folderEvents _ _ _ _ _ _ h
     exact .inr ⟨fun hc => (by rw [hff] at hc; cases hc), fun _ => ⟨fs, c, hr⟩⟩
   · exact .inr (walkForest_sound cfg _ root [] _ _ children (St.le_refl _) (St.le_refl _) ev h)
@@ -77,7 +86,7 @@ theorem walk_sound (cfg : Cfg) (root : Str) (st : St) (files : List FileEnt) (ch
 /-- every directory on the way to an event passed the folder filter -/
 theorem anc_kept (cfg : Cfg) (root : Str) (st : St) (files : List FileEnt) (children : Forest) :
     ∀ ev ∈ (walkRoot cfg root st files children).1, ∀ x ∈ ev.anc,
-      keepDir cfg x.1 (rootState cfg root st files) x.2 = true := by
+      keepDir cfg x.parent (rootState cfg root st files) x.name = true := by
   intro ev h x hx
   rcases walk_sound cfg root st files children ev h with ⟨hnil, _⟩ | hs
   · rw [hnil] at hx; cases hx
@@ -96,7 +105,7 @@ theorem anc_kept (cfg : Cfg) (root : Str) (st : St) (files : List FileEnt) (chil
 /-- **no_file_under_pruned (ignore tuple)**: nothing is yielded at or below a folder named in
 `_IGNORE_FOLDERS`, at any depth, for every tree, listing order and `.gitignore` content -/
 theorem no_event_under_ignored_folder (root : Str) (st : St) (files : List FileEnt) (children : Forest) :
-    ∀ ev ∈ (walkRoot srcCfg root st files children).1, ∀ x ∈ ev.anc, x.2 ∉ srcCfg.ignoreFolders := by
+    ∀ ev ∈ (walkRoot srcCfg root st files children).1, ∀ x ∈ ev.anc, x.name ∉ srcCfg.ignoreFolders := by
   intro ev h x hx
   have hk := anc_kept srcCfg root st files children ev h x hx
   simp only [keepDir, List.all_eq_true] at hk
@@ -106,7 +115,7 @@ theorem no_event_under_ignored_folder (root : Str) (st : St) (files : List FileE
 /-- in particular: nothing under `venv`, `.venv`, `.tox`, `.mypy_cache`, `__pycache__` -/
 theorem no_event_under_property_folders (root : Str) (st : St) (files : List FileEnt) (children : Forest) :
     ∀ ev ∈ (walkRoot srcCfg root st files children).1, ∀ x ∈ ev.anc,
-      x.2 ∉ [".tox", ".venv", ".mypy_cache", "venv", "__pycache__"].map String.toList := by
+      x.name ∉ [".tox", ".venv", ".mypy_cache", "venv", "__pycache__"].map String.toList := by
   intro ev h x hx hmem
   apply no_event_under_ignored_folder root st files children ev h x hx
   simp only [List.mem_map] at hmem
@@ -114,125 +123,228 @@ theorem no_event_under_property_folders (root : Str) (st : St) (files : List Fil
   rw [← heq]
   exact List.mem_map_of_mem (ignore_folders_cover n hn)
 
-/-- **no_file_under_pruned (.gitignore, already read)**: no directory on the way to an event is an
-absolute entry known after the root's `.gitignore` was read, nor the expansion
-`os.path.join(parent, name)` of a relative entry `(g, name)` whose folder `g` is a (string) prefix
-of the parent path -/
-theorem no_event_under_gitignored_folder (root : Str) (st : St) (files : List FileEnt) (children : Forest) :
-    ∀ ev ∈ (walkRoot srcCfg root st files children).1, ∀ x ∈ ev.anc,
-      osJoin x.1 x.2 ∉ (rootState srcCfg root st files).exceptStr ∧
-      ∀ e ∈ (rootState srcCfg root st files).rel, e.1.isPrefixOf x.1 = true → osJoin x.1 x.2 ≠ osJoin x.1 e.2 := by
-  intro ev h x hx
-  have hk := anc_kept srcCfg root st files children ev h x hx
-  simp only [keepDir, List.all_eq_true] at hk
-  have h1 := hk "not_in_except_paths" folder_filter_conjuncts.1
-  have h2 := hk "not_in_relative_expanded" folder_filter_conjuncts.2.1
-  refine ⟨by simpa [conjunct] using h1, ?_⟩
-  intro e he hpre heq
-  have h2' : osJoin x.1 x.2 ∉ expandRel x.1 (rootState srcCfg root st files).rel := by
-    simpa [conjunct] using h2
-  apply h2'
-  simp only [expandRel, List.mem_map, List.mem_filter]
-  exact ⟨e, ⟨he, hpre⟩, heq.symm⟩
+/-- the caller's `except_paths` are honoured for folders and files alike (all compared as `str`) -/
+theorem no_event_from_except_paths (root : Str) (st : St) (files : List FileEnt) (children : Forest) :
+    ∀ ev ∈ (walkRoot srcCfg root st files children).1,
+      (∀ x ∈ ev.anc, osJoin x.parent x.name ∉ st.exc) ∧ (ev.isFile = true → ev.path ∉ st.exc) := by
+  intro ev h
+  obtain ⟨_, h2, h3⟩ := (walkRoot_good srcCfg root st files children ev h).all
+  have hle := readGitignores_mono srcCfg root st files
+  refine ⟨fun x hx hm => keepDir_exc folder_filter_conjuncts.1 (h2 x hx) (hle.1 hm), fun hf hm => ?_⟩
+  obtain ⟨h4, h5⟩ := h3 hf
+  rw [h5] at hm
+  exact fileOk_exc file_filter_conjuncts.1 h4 (hle.1 hm)
 
-/-- the root's `.gitignore` has been read when the folders are filtered: its entries are in `rootState` -/
-theorem root_gitignore_read (cfg : Cfg) (root : Str) (anc : List (Str × Str)) (st : St) (files : List FileEnt)
-    (content : Str) (h : (⟨cfg.gitignoreName, content⟩ : FileEnt) ∈ files) :
-    (gitignoredPaths cfg root content).1 ⊆ (processFiles cfg root anc st files).2.exceptStr ∧
-    (gitignoredPaths cfg root content).2 ⊆ (processFiles cfg root anc st files).2.rel := by
-  induction files generalizing st with
-  | nil => cases h
-  | cons f fs ih =>
-    simp only [processFiles]
-    rcases List.mem_cons.mp h with h | h
-    · subst h
-      simp only [if_true]
-      have hm := processFiles_mono cfg root anc
-        ({ st with exceptStr := st.exceptStr ++ (gitignoredPaths cfg root content).1,
-                   rel := st.rel ++ (gitignoredPaths cfg root content).2 } : St) fs
-      exact ⟨fun x hx => hm.2.1 (List.mem_append_right _ hx), fun x hx => hm.2.2 (List.mem_append_right _ hx)⟩
-    · exact ih _ h
+/-! ## FULL: nothing that a `.gitignore` entry names is yielded
 
-/-- a folder entry `name` (no slash) in the root's `.gitignore` prunes every directory `name`
-directly below any directory whose path has the root path as a prefix -/
-theorem root_gitignore_folder_entry_prunes (root : Str) (st : St) (files : List FileEnt) (children : Forest)
-    (content name : Str) (hg : (⟨srcCfg.gitignoreName, content⟩ : FileEnt) ∈ files)
-    (hn : (root, name) ∈ (gitignoredPaths srcCfg root content).2) :
-    ∀ ev ∈ (walkRoot srcCfg root st files children).1, ∀ x ∈ ev.anc,
-      root.isPrefixOf x.1 = true → x.2 ≠ name := by
-  intro ev h x hx hpre heq
-  have := (no_event_under_gitignored_folder root st files children ev h x hx).2 (root, name)
-    ((root_gitignore_read srcCfg root [] st files content hg).2 hn) hpre
-  exact this (by rw [heq])
+The three statements that were false of the code before the fix
+"gitignore-file-entries-and-prefix" (then: `witness_relative_file_entry_not_applied`,
+`witness_absolute_file_entry_not_applied`, `witness_sibling_prefix_pruned`) are now theorems, for
+every tree, every listing order (the position of `.gitignore` in its listing is arbitrary) and
+every `.gitignore` content.  `ev.anc = pre ++ x :: post` picks any directory `x` on the way to the
+event; `post` are the directories entered below `x`, `x.files` is `x`'s listing. -/
 
-/-- the hypotheses of `root_gitignore_folder_entry_prunes` are satisfiable: a `.gitignore`
-with the line `foo` in the root yields the relative entry `(root, foo)` and `a/foo` is pruned -/
-example : (walkRoot srcCfg "/r".toList ⟨[], [], []⟩ [⟨".gitignore".toList, "foo\n".toList⟩]
-    (.cons "a".toList [] (.cons "foo".toList [⟨"m.py".toList, []⟩] .nil .nil) .nil)).1.map (·.path)
-    = ["/r/a".toList] := by decide
+/-- **absolute entries are applied, to folders and files, in any listing order**: an entry with a
+slash in a `.gitignore` of the project root, or of any directory `x` on the way to the event, is
+the path `os.path.join(folder, entry)`; no directory entered below that folder and no yielded file
+has that path. -/
+theorem no_event_from_absolute_gitignore_entry (root : Str) (st : St) (files : List FileEnt) (children : Forest) :
+    ∀ ev ∈ (walkRoot srcCfg root st files children).1,
+      (∀ content, (⟨srcCfg.gitignoreName, content⟩ : FileEnt) ∈ files →
+        ∀ a ∈ (gitignoredPaths srcCfg root content).1,
+          (∀ y ∈ ev.anc, osJoin y.parent y.name ≠ a) ∧ (ev.isFile = true → ev.path ≠ a)) ∧
+      (∀ pre x post, ev.anc = pre ++ x :: post →
+        ∀ content, (⟨srcCfg.gitignoreName, content⟩ : FileEnt) ∈ x.files →
+        ∀ a ∈ (gitignoredPaths srcCfg (osJoin x.parent x.name) content).1,
+          (∀ y ∈ post, osJoin y.parent y.name ≠ a) ∧ (ev.isFile = true → ev.path ≠ a)) := by
+  intro ev h
+  have hg := walkRoot_good srcCfg root st files children ev h
+  refine ⟨fun content hc a ha => ?_, fun pre x post hsplit content hc a ha => ?_⟩
+  · obtain ⟨_, h2, h3⟩ := hg.all
+    have hin := (gitignore_read srcCfg root st files content hc).1 ha
+    refine ⟨fun y hy heq => keepDir_exc folder_filter_conjuncts.1 (h2 y hy) (heq ▸ hin), fun hf heq => ?_⟩
+    obtain ⟨h4, h5⟩ := h3 hf
+    exact fileOk_exc file_filter_conjuncts.1 h4 (h5 ▸ heq ▸ hin)
+  · rw [hsplit] at hg
+    obtain ⟨S, _, hS, _, h2, h3⟩ := hg.honours
+    have hin := (hS content hc).1 ha
+    refine ⟨fun y hy heq => keepDir_exc folder_filter_conjuncts.1 (h2 y hy) (heq ▸ hin), fun hf heq => ?_⟩
+    obtain ⟨h4, h5⟩ := h3 hf
+    exact fileOk_exc file_filter_conjuncts.1 h4 (h5 ▸ heq ▸ hin)
+
+/-- file and directory names as a file system lists them: not empty, not starting with a slash -/
+def NameOk (n : Str) : Prop := n ≠ [] ∧ n.head? ≠ some '/'
+
+/-- **relative entries are applied, to folders and files, at every depth**: an entry `n` without a
+slash in a `.gitignore` of the project root, or of any directory `x` on the way to the event,
+names every file and directory `n` in or below that folder; no directory entered below it and no
+yielded file has that name.  (Hypotheses: the project path is not the empty string and directory
+names are non-empty and do not start with a slash.) -/
+theorem no_event_from_relative_gitignore_entry (root : Str) (st : St) (files : List FileEnt) (children : Forest)
+    (hroot : root ≠ []) :
+    ∀ ev ∈ (walkRoot srcCfg root st files children).1, (∀ y ∈ ev.anc, NameOk y.name) →
+      (∀ content, (⟨srcCfg.gitignoreName, content⟩ : FileEnt) ∈ files →
+        ∀ e ∈ (gitignoredPaths srcCfg root content).2,
+          (∀ y ∈ ev.anc, y.name ≠ e.2) ∧ (ev.isFile = true → ev.name ≠ e.2)) ∧
+      (∀ pre x post, ev.anc = pre ++ x :: post →
+        ∀ content, (⟨srcCfg.gitignoreName, content⟩ : FileEnt) ∈ x.files →
+        ∀ e ∈ (gitignoredPaths srcCfg (osJoin x.parent x.name) content).2,
+          (∀ y ∈ post, y.name ≠ e.2) ∧ (ev.isFile = true → ev.name ≠ e.2)) := by
+  intro ev h hnames
+  have hg := walkRoot_good srcCfg root st files children ev h
+  refine ⟨fun content hc e he => ?_, fun pre x post hsplit content hc e he => ?_⟩
+  · obtain ⟨h1, h2, h3⟩ := hg.all
+    have hin := (gitignore_read srcCfg root st files content hc).2 he
+    have hfst := gitignoredPaths_rel_fst srcCfg root content e he
+    obtain ⟨c1, c2⟩ := h1.covers (g := e.1) hroot hnames (by rw [hfst]; exact covers_self root)
+    refine ⟨fun y hy => not_named_of_not_expanded (keepDir_rel folder_filter_conjuncts.2.1 (h2 y hy)) hin (c1 y hy),
+      fun hf => ?_⟩
+    obtain ⟨h4, _⟩ := h3 hf
+    exact not_named_of_not_expanded (fileOk_rel file_filter_conjuncts.2 h4) hin c2
+  · have hnames' : ∀ y ∈ post, NameOk y.name := fun y hy => hnames y (by rw [hsplit]; simp [hy])
+    have hx : NameOk x.name := hnames x (by rw [hsplit]; simp)
+    rw [hsplit] at hg
+    obtain ⟨S, _, hS, h1, h2, h3⟩ := hg.honours
+    have hin := (hS content hc).2 he
+    have hfst := gitignoredPaths_rel_fst srcCfg _ content e he
+    obtain ⟨c1, c2⟩ := h1.covers (g := e.1) (osJoin_ne_nil _ _ hx.1) hnames' (by rw [hfst]; exact covers_self _)
+    refine ⟨fun y hy => not_named_of_not_expanded (keepDir_rel folder_filter_conjuncts.2.1 (h2 y hy)) hin (c1 y hy),
+      fun hf => ?_⟩
+    obtain ⟨h4, _⟩ := h3 hf
+    exact not_named_of_not_expanded (fileOk_rel file_filter_conjuncts.2 h4) hin c2
+
+/-- the former counter-examples, now on the right side: `.gitignore: ign_rel.py` and
+`.gitignore: /ign_abs.py` in either listing order — nothing is yielded (hypotheses of the two
+theorems above are satisfiable: the entries are `(root, ign_rel.py)` resp. `root/ign_abs.py`) -/
+example :
+    (walkRoot srcCfg "/r".toList ⟨[], []⟩
+      [⟨".gitignore".toList, "ign_rel.py\n/ign_abs.py\n".toList⟩, ⟨"ign_rel.py".toList, []⟩,
+       ⟨"ign_abs.py".toList, []⟩] .nil).1 = [] ∧
+    (walkRoot srcCfg "/r".toList ⟨[], []⟩
+      [⟨"ign_abs.py".toList, []⟩, ⟨"ign_rel.py".toList, []⟩,
+       ⟨".gitignore".toList, "ign_rel.py\n/ign_abs.py\n".toList⟩] .nil).1 = [] ∧
+    gitignoredPaths srcCfg "/r".toList "ign_rel.py\n/ign_abs.py\n".toList =
+      (["/r/ign_abs.py".toList], [("/r".toList, "ign_rel.py".toList)]) := by
+  decide
+
+/-- a relative entry deep in the tree: `a/.gitignore: foo` prunes `a/b/foo/` and hides `a/b/c/foo` (a file
+named `foo.py` is a different name) -/
+example : (walkRoot srcCfg "/r".toList ⟨[], []⟩ []
+    (.cons "a".toList [⟨".gitignore".toList, "m.py\nfoo\n".toList⟩]
+      (.cons "b".toList [⟨"m.py".toList, []⟩, ⟨"foo.py".toList, []⟩]
+        (.cons "foo".toList [⟨"k.py".toList, []⟩] .nil .nil) .nil) .nil)).1.map (·.path)
+    = ["/r/a".toList, "/r/a/b".toList, "/r/a/b/foo.py".toList] := by decide
 
 /-! ## every file outside the pruned places is yielded -/
 
 /-- **all_unpruned_yielded**: with `fin` the state at the end of the walk (every `.gitignore` that
-was read), a `.py/.pyi` file that is not an excepted `Path` and whose ancestors all pass the
-folder filter of `fin` is yielded — top-level files unconditionally -/
+was read), a `.py/.pyi` file that passes the file filter of `fin` and whose ancestors all pass the
+folder filter of `fin` is yielded -/
 theorem walk_complete (cfg : Cfg) (root : Str) (st : St) (files : List FileEnt) (children : Forest) :
-    (∀ f ∈ files, isPy cfg f.name = true → osJoin root f.name ∉ st.exceptPath →
-      (⟨true, osJoin root f.name, []⟩ : Ev) ∈ (walkRoot cfg root st files children).1) ∧
+    (∀ f ∈ files, isPy cfg f.name = true →
+      fileOk cfg root (walkRoot cfg root st files children).2 f.name = true →
+      (⟨true, osJoin root f.name, f.name, []⟩ : Ev) ∈ (walkRoot cfg root st files children).1) ∧
     (∀ p a fs c, Reach (fun r n => keepDir cfg r (walkRoot cfg root st files children).2 n) root [] children p a fs c →
-      ∀ f ∈ fs, isPy cfg f.name = true → osJoin p f.name ∉ st.exceptPath →
-      (⟨true, osJoin p f.name, a⟩ : Ev) ∈ (walkRoot cfg root st files children).1) := by
-  refine ⟨fun f hf hpy hex => ?_, fun p a fs c hr f hf hpy hex => ?_⟩
+      ∀ f ∈ fs, isPy cfg f.name = true →
+      fileOk cfg p (walkRoot cfg root st files children).2 f.name = true →
+      (⟨true, osJoin p f.name, f.name, a⟩ : Ev) ∈ (walkRoot cfg root st files children).1) := by
+  refine ⟨fun f hf hpy hok => ?_, fun p a fs c hr f hf hpy hok => ?_⟩
   · simp only [walkRoot, List.mem_append]
-    exact .inl (.inl ((mem_processFiles _ _ _ _ _ _).mpr ⟨f, hf, hpy, hex, rfl⟩))
+    refine .inl (.inl ((mem_fileEvents _ _ _ _ _ _).mpr ⟨f, hf, hpy, ?_, rfl⟩))
+    exact fileOk_antitone _ _ _ (walkForest_mono _ _ _ _ _ _) hok
   · simp only [walkRoot, List.mem_append]
-    refine .inr (walkForest_complete cfg _ hr _ _ ?_ (St.le_refl _) f hf hpy ?_)
-    · exact walkForest_mono _ _ _ _ _ _
-    · rw [← (processFiles_mono cfg root [] st files).1]; exact hex
+    exact .inr (walkForest_complete cfg _ hr _ _ (walkForest_mono _ _ _ _ _ _) (St.le_refl _) f hf hpy hok)
 
 /-- `Reach` is inhabited by a non-trivial chain (hypothesis of `walk_complete`, conclusion of `walk_sound`) -/
 example : Reach (fun _ n => n != "venv".toList) "/r".toList []
     (.cons "venv".toList [] .nil (.cons "a".toList [] (.cons "b".toList [⟨"m.py".toList, []⟩] .nil .nil) .nil))
-    "/r/a/b".toList [("/r".toList, "a".toList), ("/r/a".toList, "b".toList)] [⟨"m.py".toList, []⟩] .nil :=
+    "/r/a/b".toList [⟨"/r".toList, "a".toList, []⟩, ⟨"/r/a".toList, "b".toList, [⟨"m.py".toList, []⟩]⟩]
+    [⟨"m.py".toList, []⟩] .nil :=
   .sibling (.down (by decide) (.here (by decide)))
 
 /-- the two bounds meet when the tree holds no `.gitignore`: the walk state never changes -/
-example : (walkRoot srcCfg "/r".toList ⟨[], [], []⟩ [⟨"m.py".toList, []⟩]
+example : (walkRoot srcCfg "/r".toList ⟨[], []⟩ [⟨"m.py".toList, []⟩]
     (.cons "venv".toList [⟨"v.py".toList, []⟩] .nil (.cons "a".toList [⟨"k.pyi".toList, []⟩] .nil .nil))).1.map (·.path)
     = ["/r/m.py".toList, "/r/a".toList, "/r/a/k.pyi".toList] := by decide
 
-/-! ## FULL statement ("nothing that a `.gitignore` entry names; everything else") is false
+/-! ## FULL: everything that no applicable rule names is yielded
 
-Three kernel-checked counter-witnesses on the model; each reproduces on the real code
-(harness streams `search-negative` / `search-complete`, known findings). -/
+`walk_complete` above measures against the final state of the walk, which holds the entries of
+every `.gitignore` of the project.  Before the fix a relative entry of `a/.gitignore` also pruned
+below the sibling `ab/` (`witness_sibling_prefix_pruned`).  Now only the `.gitignore` files in the
+directory itself and above it count, in terms of tree positions (name chains), not of string
+prefixes.  Hypotheses: the project path is non-empty without trailing separator, names contain no
+separator, and `except_paths_relative` starts empty (it always does: it is a local variable). -/
 
-/-- FULL (false): a relative file entry is applied.  `.gitignore: ign_rel.py` is read first, and
-`ign_rel.py` is still yielded. -/
-theorem witness_relative_file_entry_not_applied :
-    (⟨true, "/r/ign_rel.py".toList, []⟩ : Ev) ∈
-      (walkRoot srcCfg "/r".toList ⟨[], [], []⟩
-        [⟨".gitignore".toList, "ign_rel.py\n".toList⟩, ⟨"ign_rel.py".toList, []⟩] .nil).1 := by
-  decide
+/-- **entries of a `.gitignore` only apply in and below its own directory; every other python
+file is yielded**: a `.py/.pyi` file `f` of the directory at name chain `ns` is yielded if
+* no directory on the way is named in `_IGNORE_FOLDERS`, is one of the caller's `except_paths`, or
+  is named by a `.gitignore` entry of a directory at or above its parent, and
+* the file is not one of the caller's `except_paths` and is not named by a `.gitignore` entry of
+  its own directory or a directory above — whatever `.gitignore` files lie elsewhere in the tree. -/
+theorem unnamed_file_is_yielded (root : Str) (st : St) (files : List FileEnt) (children : Forest)
+    (hroot : RootOk root) (hnames : children.AllNames ValidName) (hrel : st.rel = [])
+    (ns : List Str) (fs : List FileEnt) (hdir : DirAtRoot files children ns fs)
+    (f : FileEnt) (hf : f ∈ fs) (hpy : isPy srcCfg f.name = true) (hfn : ValidName f.name)
+    (hdirs : ∀ pre n post, ns = pre ++ n :: post →
+      n ∉ srcCfg.ignoreFolders ∧ osJoin (pathOf root pre) n ∉ st.exc ∧
+      ¬ NamedByGitignore srcCfg root files children pre n)
+    (hexc : osJoin (pathOf root ns) f.name ∉ st.exc)
+    (hfile : ¬ NamedByGitignore srcCfg root files children ns f.name) :
+    ∃ ev ∈ (walkRoot srcCfg root st files children).1,
+      ev.isFile = true ∧ ev.path = osJoin (pathOf root ns) f.name ∧ ev.name = f.name := by
+  have hns := hdir.names hnames
+  obtain ⟨f1, f2⟩ := entry_passes_final srcCfg st files children hroot hnames hrel hns hfn hexc hfile
+  have hok := fileOk_intro srcCfg f1 f2 (by decide)
+  have hkd : ∀ pre n post, ns = pre ++ n :: post →
+      keepDir srcCfg (pathOf root pre) (walkRoot srcCfg root st files children).2 n = true := by
+    intro pre n post hs
+    obtain ⟨h1, h2, h3⟩ := hdirs pre n post hs
+    have hpre : ∀ k ∈ pre, ValidName k := fun k hk => hns k (by rw [hs]; simp [hk])
+    have hn : ValidName n := hns n (by rw [hs]; simp)
+    obtain ⟨e1, e2⟩ := entry_passes_final srcCfg st files children hroot hnames hrel hpre hn h2 h3
+    exact keepDir_intro srcCfg e1 e2 h1
+  rcases hdir with ⟨hnil, hfs⟩ | hd
+  · subst hnil; subst hfs
+    exact ⟨_, (walk_complete srcCfg root st fs children).1 f hf hpy hok, rfl, rfl, rfl⟩
+  · obtain ⟨a, c, hr⟩ := reach_of_dirAt (kd := fun r n => keepDir srcCfg r (walkRoot srcCfg root st files children).2 n)
+      (root := root) (anc := []) hd hkd
+    exact ⟨_, (walk_complete srcCfg root st files children).2 _ a fs c hr f hf hpy hok, rfl, rfl, rfl⟩
 
-/-- FULL (false): an absolute file entry is applied.  The entry is a `str`, the file path a
-`pathlib.Path`; in either listing order the file is yielded. -/
-theorem witness_absolute_file_entry_not_applied :
-    (⟨true, "/r/ign_abs.py".toList, []⟩ : Ev) ∈
-      (walkRoot srcCfg "/r".toList ⟨[], [], []⟩
-        [⟨".gitignore".toList, "/ign_abs.py\n".toList⟩, ⟨"ign_abs.py".toList, []⟩] .nil).1 ∧
-    (⟨true, "/r/ign_abs.py".toList, []⟩ : Ev) ∈
-      (walkRoot srcCfg "/r".toList ⟨[], [], []⟩
-        [⟨"ign_abs.py".toList, []⟩, ⟨".gitignore".toList, "/ign_abs.py\n".toList⟩] .nil).1 := by
-  decide
-
-/-- FULL (false): entries of `a/.gitignore` only apply below `a/`.  `a/.gitignore: foo` prunes
-`ab/foo` (string-prefix test): `ab/foo/m.py` is not yielded although no rule names it. -/
-theorem witness_sibling_prefix_pruned :
-    (walkRoot srcCfg "/r".toList ⟨[], [], []⟩ []
-      (.cons "a".toList [⟨".gitignore".toList, "foo\n".toList⟩] .nil
+/-- the former counter-example: `a/.gitignore: foo` prunes `a/foo` and nothing under the sibling `ab/` -/
+example :
+    (walkRoot srcCfg "/r".toList ⟨[], []⟩ []
+      (.cons "a".toList [⟨".gitignore".toList, "foo\n".toList⟩] (.cons "foo".toList [⟨"m.py".toList, []⟩] .nil .nil)
         (.cons "ab".toList [] (.cons "foo".toList [⟨"m.py".toList, []⟩] .nil .nil) .nil))).1.map (·.path)
-      = ["/r/a".toList, "/r/ab".toList] := by
+      = ["/r/a".toList, "/r/ab".toList, "/r/ab/foo".toList, "/r/ab/foo/m.py".toList] := by
   decide
+
+/-- the hypotheses of `unnamed_file_is_yielded` hold for `ab/foo/m.py` in that tree: the only
+`.gitignore` lies at chain `[a]`, which is not a prefix of `[ab]` or `[ab, foo]` -/
+example : RootOk "/r".toList ∧ ValidName "ab".toList ∧
+    DirAt (.cons "a".toList [⟨".gitignore".toList, "foo\n".toList⟩] .nil
+        (.cons "ab".toList [] (.cons "foo".toList [⟨"m.py".toList, []⟩] .nil .nil) .nil))
+      ["ab".toList, "foo".toList] [⟨"m.py".toList, []⟩] ∧
+    ¬ (["a".toList] <+: ["ab".toList, "foo".toList]) :=
+  ⟨by unfold RootOk; decide, by unfold ValidName; decide, .sibling (.down .here), by decide⟩
+
+/-! ## at most once -/
+
+/-- **yielded at most once**: if the names in every listing are distinct (directory names among
+siblings, file names within a directory — as on a file system), no two events of the walk are at
+the same tree position (names of the directories on the way, own name, file / folder).  Together
+with `unnamed_file_is_yielded`: every python file no rule names is yielded exactly once. -/
+theorem each_position_yielded_at_most_once (cfg : Cfg) (root : Str) (st : St) (files : List FileEnt)
+    (children : Forest) (hfiles : (files.map (·.name)).Nodup) (hch : children.Distinct) :
+    ((walkRoot cfg root st files children).1.map Ev.pos).Nodup :=
+  walkRoot_pos_nodup cfg root st files children hfiles hch
+
+/-- `Forest.Distinct` holds of a non-trivial tree, and fails when two siblings share a name -/
+example :
+    (Forest.cons "a".toList [⟨"m.py".toList, []⟩, ⟨"n.py".toList, []⟩] (.cons "a".toList [] .nil .nil)
+      (.cons "ab".toList [] .nil .nil)).Distinct ∧
+    ¬ (Forest.cons "a".toList [] .nil (.cons "a".toList [] .nil .nil)).Distinct := by
+  simp [Forest.Distinct, Forest.dirNames]
 
 /-! ## open / parse limits -/
 
@@ -326,6 +438,18 @@ theorem search_filter_spec (lower : Str → Str) (names : List Nm) (wantedType l
   simp only [searchFilter, List.mem_filter, nameMatches, typeOk, Bool.and_eq_true, Bool.or_eq_true,
     beq_iff_eq]
   cases complete <;> simp <;> intro _ <;> exact And.comm
+
+/-- **no duplicate survives `_try_to_skip_duplicates`**: among the results it lets through, the
+tree names (`tree_name` identities that are not `None`) are pairwise different, and so are the
+`module_path`s of the results of type `module` -/
+theorem skip_duplicates_nodup (l : List Nm) :
+    ((skipDuplicates l).filterMap (·.treeId)).Nodup ∧ ((skipDuplicates l).filterMap modKey).Nodup :=
+  ⟨(skipLoop_treeIds_nodup [] [] l).1, (skipLoop_modKeys_nodup [] [] l).1⟩
+
+example : skipDuplicates [⟨"a".toList, "statement".toList, some 1, none, 1⟩, ⟨"a".toList, "statement".toList, some 1, none, 1⟩,
+    ⟨"m".toList, "module".toList, none, some "/r/m.py".toList, 1⟩, ⟨"m".toList, "module".toList, none, some "/r/m.py".toList, 1⟩]
+    = [⟨"a".toList, "statement".toList, some 1, none, 1⟩, ⟨"m".toList, "module".toList, none, some "/r/m.py".toList, 1⟩] := by
+  decide
 
 /-- `_try_to_skip_duplicates` only drops results -/
 theorem skip_duplicates_sublist (l : List Nm) : (skipDuplicates l).Sublist l :=
